@@ -21,7 +21,9 @@ const c19Rule = "parser-produced trees (from rendered own-ASTs, depth <= 6, JSON
 	"indent strings (empty, blanks, tabs, multi-byte) x start levels 0-4; oracle: independent reference renderer written from the documented format, byte-equal output; " +
 	"dumping twice gives identical bytes; no panic; non-trivial = depth >= 3, a quantifier under a connective or a JSON-Pointer selector; distinct by (text, indent, level)"
 
-var c19Indents = []string{"", " ", "  ", "\t", "    ", "→", ". "}
+// indent strings: uniform, non-uniform, and pairs where one is a prefix of the other's
+// repetition with a different period (a cache keyed on a prefix would confuse them)
+var c19Indents = []string{"", " ", "  ", "\t", "    ", "→", ". ", ".", ". .", "| ", "|", "||", "ab", "a", "aba", "  |", "→ ", "→→"}
 
 // refSelector is the documented rendering of a selector in its own spelling.
 func refSelector(s grammar.Selector) string {
